@@ -3,11 +3,26 @@ package main
 import (
 	"context"
 	"fmt"
+	"math/rand"
 
 	"github.com/orbs-network/lean-helix-go/spec/types/go/protocol"
 )
 
 // ---- the scheduler ----
+func (w *world) deliverable() []int {
+	var idx []int
+	for i, p := range w.pool {
+		if w.held[p.to] {
+			continue
+		}
+		if w.slowCommits && p.msg.Kind == "C" && p.msg.view() <= w.slowUntilView {
+			continue // COMMITs of the early views are slow: nodes become prepared and then have to change view
+		}
+		idx = append(idx, i)
+	}
+	return idx
+}
+
 func (w *world) run() {
 	r := w.r
 	for _, n := range w.honest {
@@ -16,37 +31,67 @@ func (w *world) run() {
 		}
 		w.sync(n, nil)
 	}
-	steps := 40 + r.Intn(220)
+	// chaos level of this world: how often the adversary / the clock interferes with plain delivery
+	chaos := []int{4, 12, 30, 55}[r.Intn(4)]
+	if r.Intn(3) == 0 {
+		w.slowCommits, w.slowUntilView = true, uint64(r.Intn(3))
+		w.rep.count("world:slow-commits")
+	}
+	w.rep.count(fmt.Sprintf("world:chaos-%d%%", chaos))
+	steps := 60 + r.Intn(260)
 	for s := 0; s < steps; s++ {
-		k := r.Intn(100)
-		switch {
-		case k < 58:
-			if len(w.pool) == 0 {
-				w.someElection()
+		// hold / release a node's inbox (a slow or partitioned node whose traffic arrives later, in a burst)
+		if r.Intn(60) == 0 {
+			n := w.honest[r.Intn(len(w.honest))]
+			w.held[n.id] = !w.held[n.id]
+			if w.held[n.id] {
+				w.rep.count("sched:hold-node")
+			}
+		}
+		if r.Intn(100) >= chaos {
+			idx := w.deliverable()
+			if len(idx) == 0 {
+				if len(w.pool) > 0 && r.Intn(3) == 0 { // everything pending is held: release
+					for k := range w.held {
+						w.held[k] = false
+					}
+					continue
+				}
+				w.timelyElections()
 				continue
 			}
-			i := r.Intn(len(w.pool))
-			if r.Intn(4) != 0 && len(w.pool) > 3 {
-				i = r.Intn(3) // mostly near-FIFO so that runs make progress
+			i := idx[0]
+			if r.Intn(5) == 0 {
+				i = idx[r.Intn(len(idx))]
 			}
 			p := w.pool[i]
-			if r.Intn(12) != 0 {
-				w.pool = append(w.pool[:i], w.pool[i+1:]...)
-			} else {
+			w.pool = append(w.pool[:i], w.pool[i+1:]...)
+			w.deliverG(w.byId[p.to], p.msg, p.raw, p.genuine)
+			continue
+		}
+		k := r.Intn(100)
+		switch {
+		case k < 20:
+			idx := w.deliverable()
+			if len(idx) > 0 {
+				i := idx[r.Intn(len(idx))]
+				p := w.pool[i]
 				w.rep.count("sched:duplicate-delivery")
+				w.deliverG(w.byId[p.to], p.msg, p.raw, p.genuine) // stays in the pool: delivered again later
 			}
-			w.deliver(w.byId[p.to], p.msg, p.raw)
-		case k < 66:
+		case k < 38:
 			w.someElection()
-		case k < 70:
+		case k < 46:
 			if len(w.pool) > 0 {
 				i := r.Intn(len(w.pool))
 				w.pool = append(w.pool[:i], w.pool[i+1:]...)
 				w.rep.count("sched:drop")
 			}
-		case k < 73:
+		case k < 50:
 			w.someSync()
-		case k < 86:
+		case k < 54:
+			w.burstNewestFirst()
+		case k < 76:
 			w.mutatedReplay()
 		default:
 			if len(w.byz) > 0 {
@@ -56,12 +101,93 @@ func (w *world) run() {
 			}
 		}
 	}
-	// a calm tail: deliver what is pending, near FIFO
-	for t := 0; t < 80 && len(w.pool) > 0; t++ {
+	// a calm tail: release everybody, deliver what is pending in order, let timers fire when nothing is pending
+	for k := range w.held {
+		w.held[k] = false
+	}
+	w.slowCommits = false
+	for t := 0; t < 150; t++ {
+		if len(w.pool) == 0 {
+			if t > 100 {
+				break
+			}
+			w.timelyElections()
+			continue
+		}
 		p := w.pool[0]
 		w.pool = w.pool[1:]
-		w.deliver(w.byId[p.to], p.msg, p.raw)
+		w.deliverG(w.byId[p.to], p.msg, p.raw, p.genuine)
 	}
+}
+
+// timelyElections: nothing is in flight, so the next thing to happen is a timeout; lower views time out
+// first (exponential timeouts), so the correct nodes with the minimal (height, view) fire together.
+func (w *world) timelyElections() {
+	var minH, minV uint64
+	first := true
+	for _, n := range w.honest {
+		st := n.vn.State()
+		h, v := uint64(st.Height()), uint64(st.View())
+		if h == 0 {
+			continue
+		}
+		if first || h < minH || (h == minH && v < minV) {
+			minH, minV, first = h, v, false
+		}
+	}
+	if first {
+		w.someElection()
+		return
+	}
+	for _, n := range w.honest {
+		st := n.vn.State()
+		if uint64(st.Height()) == minH && uint64(st.View()) == minV {
+			w.election(n, minH, minV)
+		}
+	}
+}
+
+// burstNewestFirst: a node that was cut off gets its backlog in a burst, the newest height first (so the
+// messages of the next height sit in its future cache when the current height's commit arrives)
+func (w *world) burstNewestFirst() {
+	n := w.honest[w.r.Intn(len(w.honest))]
+	var mine []pend
+	var rest []pend
+	for _, p := range w.pool {
+		if p.to == n.id {
+			mine = append(mine, p)
+		} else {
+			rest = append(rest, p)
+		}
+	}
+	if len(mine) < 4 {
+		return
+	}
+	w.rep.count("sched:burst-newest-height-first")
+	w.held[n.id] = false
+	w.pool = rest
+	cur := uint64(n.vn.State().Height())
+	// first everything for the height after the current one, then the current height, then the rest
+	for _, pass := range []int{1, 0, 2} {
+		for _, p := range mine {
+			h := p.msg.height()
+			cls := 2
+			if h == cur+1 {
+				cls = 1
+			} else if h == cur {
+				cls = 0
+			}
+			if cls == pass {
+				w.deliverG(n, p.msg, p.raw, p.genuine)
+			}
+		}
+	}
+}
+
+func (w *world) someElectionExact() {
+	n := w.honest[w.r.Intn(len(w.honest))]
+	st := n.vn.State()
+	w.election(n, uint64(st.Height()), uint64(st.View()))
 }
 
 func (w *world) someElection() {
@@ -74,12 +200,12 @@ func (w *world) someElection() {
 			v-- // stale trigger
 		}
 	case 1:
-		v++ // trigger for a view not reached
-	case 2:
-		if h > 0 {
-			h--
+		if h > 1 {
+			h-- // trigger of a previous height
 		}
 	}
+	// (a trigger for a view the node has not reached cannot occur: triggers come from the node's own timer,
+	// which is only ever armed for the node's current height and view)
 	w.election(n, h, v)
 }
 
@@ -257,6 +383,30 @@ func (w *world) mutVote(v *aVote) string {
 	v.View = w.otherVal(v.View, false)
 	return "vote.view"
 }
+// someProofAt: a prepared proof seen on the network for height h with a view below `below`
+func (w *world) someProofAt(h, below uint64) *aProof {
+	var ps []*aProof
+	add := func(p *aProof) {
+		if p != nil && p.PPRef.Height == h && p.PPRef.View < below && p.PPSnd.Ok {
+			ps = append(ps, p)
+		}
+	}
+	for _, m := range w.history {
+		if m.Kind == "VC" {
+			add(m.Vote.Proof)
+		}
+		for _, v := range m.Votes {
+			add(v.Proof)
+		}
+	}
+	if len(ps) == 0 {
+		return nil
+	}
+	p := *ps[w.r.Intn(len(ps))]
+	p.PSnds = append([]aSig{}, p.PSnds...)
+	return &p
+}
+
 func (w *world) someProof() *aProof {
 	var ps []*aProof
 	for _, m := range w.history {
@@ -422,7 +572,11 @@ func (w *world) byzAction() {
 	}
 	b := w.pickByz()
 	ref := func(ty, view, hash uint64) aRef { return aRef{ty, worldInst, h, view, hash} }
-	switch r.Intn(7) {
+	pick := r.Intn(7)
+	if w.kf1 && v > 0 && w.byz[w.leaderAt(h, v)] && r.Intn(2) == 0 {
+		pick = 0
+	}
+	switch pick {
 	case 0: // equivocating / plain proposal by a Byzantine leader of the target's current view
 		ld := w.leaderAt(h, v)
 		if !w.byz[ld] {
@@ -454,6 +608,19 @@ func (w *world) byzAction() {
 		w.inject(target, &aMsg{Kind: kind, Ref: ref(ty, vv, x), Snd: aSig{b, true}, ShareOk: r.Intn(5) != 0}, "byz-"+kind)
 	case 2: // Byzantine VIEW_CHANGE to the honest leader of the next view(s)
 		nv := v + 1 + uint64(r.Intn(2))
+		// prefer a view for which an honest leader is collecting votes right now
+		for k := len(w.history) - 1; k >= 0 && k >= len(w.history)-40; k-- {
+			hm := w.history[k]
+			if hm.Kind == "VC" && !w.byz[hm.Vote.Snd.Id] && hm.Vote.Snd.Ok {
+				if _, honestLeader := w.byId[w.leaderAt(hm.Vote.Height, hm.Vote.View)]; honestLeader && r.Intn(3) != 0 {
+					h, nv = hm.Vote.Height, hm.Vote.View
+					if nv > 0 {
+						v = nv - 1
+					}
+					break
+				}
+			}
+		}
 		ld := w.leaderAt(h, nv)
 		n, ok := w.byId[ld]
 		if !ok {
@@ -462,12 +629,26 @@ func (w *world) byzAction() {
 		vt := aVote{5, worldInst, h, nv, nil, aSig{b, true}}
 		var blk *aBlock
 		switch r.Intn(4) {
-		case 0:
-			if p := w.someProof(); p != nil {
+		case 0, 2:
+			p := w.someProofAt(h, nv)
+			if p == nil {
+				p = w.someProof()
+			}
+			if p != nil {
 				vt.Proof = p
 				blk = w.blockOfHash(p.PPRef.Hash)
-				if r.Intn(4) == 0 {
+				if r.Intn(3) == 0 {
 					blk = nil // proof without block
+					w.rep.count("byz:VC-proof-without-block")
+					// the adversary also delays the correct votes that carry the proof together with its block
+					var keep []pend
+					for _, pd := range w.pool {
+						if pd.to == ld && pd.msg.Kind == "VC" && pd.msg.Vote.View == nv && pd.msg.Vote.Proof != nil {
+							continue
+						}
+						keep = append(keep, pd)
+					}
+					w.pool = keep
 				}
 			}
 		case 1: // forged proof: only Byzantine signatures are valid
@@ -499,7 +680,11 @@ func (w *world) byzAction() {
 		}
 		for _, bz := range keysOf(w.byz) {
 			if !seen[bz] {
-				votes = append(votes, aVote{5, worldInst, h, nv, nil, aSig{bz, true}})
+				vt := aVote{5, worldInst, h, nv, nil, aSig{bz, true}}
+				if r.Intn(2) == 0 {
+					vt.Proof = w.someProofAt(h, nv) // a Byzantine vote may carry a replayed genuine proof
+				}
+				votes = append(votes, vt)
 				seen[bz] = true
 			}
 		}
@@ -535,6 +720,7 @@ func (w *world) byzAction() {
 			hash = best.PPRef.Hash
 			if variant == 3 { // locked block under a PREPREPARE over another hash
 				hash = w.someHash(hash)
+				w.rep.count("byz:NV-locked-block-other-hash")
 			}
 		} else {
 			blk = w.byzBlock(h)
@@ -585,6 +771,9 @@ func (w *world) onCommitMonitors(n *simNode, b *aBlock, ref aRef, signers []aSig
 	if prev, ok := w.chain[b.Height]; ok {
 		if prev.Id != b.Id {
 			sig := "fork"
+			if w.kf1Adopted {
+				sig = "fork-after-standalone-preprepare"
+			}
 			w.rep.finding("C01", sig, fmt.Sprintf("height %d: node %d commits block %d, another correct node committed block %d", b.Height, n.id, b.Id, prev.Id), w.traceInput())
 		}
 	} else {
@@ -693,5 +882,67 @@ func (w *world) finalMonitors() {
 		if len(n.commits) > 1 {
 			w.rep.count("node:committed-2+")
 		}
+	}
+}
+
+// ---- directed replay of known finding KF-1 (n=4, f=1): a Byzantine leader of view 1 forks the chain with a
+// standalone PREPREPARE sent to the nodes that reached view 1 by timeout (DESIGN.md §1.1 F1) ----
+func (w *world) take(to uint64, kind string, from uint64) bool { return w.takeV(to, kind, from, 0) }
+func (w *world) takeV(to uint64, kind string, from uint64, view uint64) bool {
+	for i, p := range w.pool {
+		if p.to == to && p.msg.Kind == kind && p.msg.sender() == from && p.msg.view() == view {
+			w.pool = append(w.pool[:i], w.pool[i+1:]...)
+			w.deliverG(w.byId[p.to], p.msg, p.raw, p.genuine)
+			return true
+		}
+	}
+	return false
+}
+
+func kf1ForkWorld(r *rand.Rand, rep *Report, seed int64) *world {
+	w := &world{r: r, rep: rep, kr: newKeyring(seed), byz: map[uint64]bool{1: true}, byId: map[uint64]*simNode{}, signed: map[string]bool{},
+		proposedBy: map[uint64]uint64{}, validatedBy: map[uint64][]uint64{}, failCommit: map[uint64][]uint64{}, excl: map[uint64][]uint64{}, chain: map[uint64]*aBlock{}, held: map[uint64]bool{}}
+	w.codec = newCodec(w.kr)
+	w.n, w.weights, w.rot, w.kf1 = 4, []uint64{1, 1, 1, 1}, 0, true
+	for _, i := range []uint64{0, 2, 3} {
+		n := w.newNode(i)
+		w.honest = append(w.honest, n)
+		w.byId[i] = n
+	}
+	return w
+}
+
+func (w *world) kf1ForkScript() {
+	for _, n := range w.honest {
+		w.sync(n, nil)
+	}
+	// view 0: correct leader 0 proposes A; 2 and 3 prepare; 0 and 2 become prepared; 0 commits with the help of Byzantine 1
+	w.take(2, "PP", 0)
+	w.take(3, "PP", 0)
+	w.take(0, "P", 2)
+	w.take(0, "P", 3)
+	w.take(2, "P", 3)
+	var a uint64
+	for _, m := range w.history {
+		if m.Kind == "PP" {
+			a = m.Ref.Hash
+		}
+	}
+	w.take(0, "C", 2)
+	w.inject(w.byId[0], &aMsg{Kind: "C", Ref: aRef{3, worldInst, 1, 0, a}, Snd: aSig{1, true}, ShareOk: true}, "byz-C")
+	// 2 and 3 time out and move to view 1 (2 is locked on A and says so in its vote to the Byzantine leader 1)
+	w.election(w.byId[2], 1, 0)
+	w.election(w.byId[3], 1, 0)
+	// the Byzantine leader of view 1 sends a standalone PREPREPARE for another block
+	evil := &aBlock{Height: 1, Id: 2999999}
+	for _, id := range []uint64{2, 3} {
+		w.inject(w.byId[id], &aMsg{Kind: "PP", Ref: aRef{1, worldInst, 1, 1, evil.Id}, Snd: aSig{1, true}, Block: evil}, "byz-standalone-preprepare-view1")
+	}
+	w.takeV(2, "P", 3, 1)
+	w.takeV(3, "P", 2, 1)
+	w.takeV(2, "C", 3, 1)
+	w.takeV(3, "C", 2, 1)
+	for _, id := range []uint64{2, 3} {
+		w.inject(w.byId[id], &aMsg{Kind: "C", Ref: aRef{3, worldInst, 1, 1, evil.Id}, Snd: aSig{1, true}, ShareOk: true}, "byz-C")
 	}
 }
